@@ -46,6 +46,10 @@ func GenHistory(r *Rng, o HistOpts) *WriterSpec {
 	}
 	if o.LargePct > 0 && r.Intn(100) < o.LargePct {
 		w.Page = r.Range(100, 1200)
+		if r.Chance(1, 4) {
+			// the documented defaults (1000 records per page, snappy): the adapter then passes no options at all
+			w.Page, w.Codec = 1000, "snappy"
+		}
 		o.MaxOps = 4000
 		if o.MaxBatches > 3 {
 			o.MaxBatches = 3
